@@ -19,9 +19,19 @@ CONFIGS = {
 }
 
 
+def driver_digest():
+    h = hashlib.sha256()
+    d = os.path.join(DRIVER_DIR, "src")
+    for fn in sorted(os.listdir(d)):
+        with open(os.path.join(d, fn), "rb") as f:
+            h.update(fn.encode() + b"\0" + f.read())
+    return h.hexdigest()[:8]
+
+
 def source_digest(repo=None):
     repo = repo or REPO
     h = hashlib.sha256()
+    h.update(driver_digest().encode())     # facts written by another version of the extractor are never reused
     paths = []
     for root, dirs, files in os.walk(repo):
         dirs[:] = sorted(d for d in dirs if d not in ("target", ".git"))
